@@ -2,6 +2,7 @@
 #pragma once
 #include <array>
 #include <cstdint>
+#include <cstdio>
 #include <cstring>
 #include <functional>
 #include <map>
@@ -64,6 +65,14 @@ struct Rng {
   bool chance(unsigned pct) { return below(100) < pct; }
 };
 
+// What is being executed, for the sanitizers' death callbacks: a crash then names its input.
+inline std::string& current_input() { static std::string s; return s; }
+inline void on_death() {
+  std::string m = "\nCURRENT-INPUT: " + current_input() + "\n";
+  std::fwrite(m.data(), 1, m.size(), stderr);
+  std::fflush(stderr);
+}
+
 template <typename T, typename = void> struct has_kind : std::false_type {};
 template <typename T> struct has_kind<T, nop::Void<typename T::nopv_kind>> : std::true_type {};
 template <typename T, typename Tag, typename = void> struct is_kind : std::false_type {};
@@ -106,3 +115,10 @@ inline const char* status_name(nop::ErrorStatus e) {
 }
 
 }  // namespace nopv
+
+extern "C" void __sanitizer_set_death_callback(void (*callback)(void));
+// libubsan has its own runtime copy under g++: its reports come through this hook
+extern "C" __attribute__((used)) inline void __ubsan_on_report(void) { nopv::on_death(); }
+namespace nopv {
+inline void install_death_hooks() { __sanitizer_set_death_callback(on_death); }
+}
